@@ -13,6 +13,7 @@ import (
 	"sync"
 	"time"
 
+	apierrors "k8s.io/apimachinery/pkg/api/errors"
 	"k8s.io/apimachinery/pkg/apis/meta/v1/unstructured"
 	"k8s.io/apimachinery/pkg/runtime"
 	"k8s.io/apimachinery/pkg/runtime/schema"
@@ -54,6 +55,7 @@ type scriptedMap struct {
 	informers map[schema.GroupVersionKind]*stubInformer
 	slow      bool // stress: informer start/stop takes time (widens every window around informer-map calls)
 	failNext  int // number of upcoming creations that fail
+	failSync  bool // the failing creation is a sync timeout: the informer exists and runs, Get returns a Timeout error
 	creates   int
 	deletes   int
 	failures  int
@@ -76,6 +78,12 @@ func (m *scriptedMap) Get(_ context.Context, gvk schema.GroupVersionKind, _ runt
 	if m.failNext > 0 {
 		m.failNext--
 		m.failures++
+		if m.failSync {
+			// like InformerMap.Get when WaitForCacheSync gives up: the informer stays in the map
+			m.informers[gvk] = &stubInformer{}
+			m.creates++
+			return nil, nil, apierrors.NewTimeoutError("scripted: failed waiting for Informer to sync", 0)
+		}
 		return nil, nil, errors.New("scripted informer start-up failure")
 	}
 	inf := &stubInformer{}
@@ -175,14 +183,15 @@ type c12Op struct {
 	Op    string `json:"op"` // Watch | Free | Get | List | Owners
 	Owner string `json:"owner"`
 	Kind  string `json:"kind"`
-	Fail  bool   `json:"fail"` // the next informer creation fails
+	Fail  string `json:"fail"` // how the next informer start-up fails: none | create | sync
 }
 
 func (cw *c12World) apply(op c12Op) (res string) {
 	ctx := context.Background()
-	if op.Fail {
+	if op.Fail == "create" || op.Fail == "sync" {
 		cw.m.mu.Lock()
 		cw.m.failNext = 1
+		cw.m.failSync = op.Fail == "sync"
 		cw.m.mu.Unlock()
 	}
 	var err error
@@ -232,14 +241,14 @@ func init() {
 			var alpha []c12Op
 			for _, o := range []string{"o1", "o2"} {
 				for _, k := range []string{"k1", "k2"} {
-					for _, f := range []bool{false, true} {
+					for _, f := range []string{"none", "create", "sync"} {
 						alpha = append(alpha, c12Op{Op: "Watch", Owner: o, Kind: k, Fail: f})
 					}
 				}
 				alpha = append(alpha, c12Op{Op: "Free", Owner: o})
 			}
 			for _, k := range []string{"k1", "k2"} {
-				for _, f := range []bool{false, true} {
+				for _, f := range []string{"none", "create", "sync"} {
 					alpha = append(alpha, c12Op{Op: "Get", Kind: k, Fail: f})
 				}
 			}
@@ -261,7 +270,8 @@ func init() {
 				var s []c12Op
 				for j := 0; j < a.steps; j++ {
 					op := c12Op{Op: []string{"Watch", "Watch", "Free", "Get", "List", "Owners"}[rng.Intn(6)],
-						Owner: []string{"o1", "o2", "o3"}[rng.Intn(3)], Kind: []string{"k1", "k2", "k3"}[rng.Intn(3)], Fail: rng.Intn(5) == 0}
+						Owner: []string{"o1", "o2", "o3"}[rng.Intn(3)], Kind: []string{"k1", "k2", "k3"}[rng.Intn(3)],
+						Fail: []string{"none", "none", "none", "none", "create", "sync"}[rng.Intn(6)]}
 					s = append(s, op)
 				}
 				seqs = append(seqs, s)
